@@ -330,8 +330,21 @@ func c10Create(in *c10Input, keep func(c10Kept)) (o *c10Obj, out string) {
 		o.js = s
 		out = c10Err(err)
 		o.keepErr("create", err)
+		// the texts the objects were made of are the caller's: they must stay what they are
+		if s != nil {
+			o.keepBytes("text the root schema was created from", "create", s.File.Content().Data())
+			for name, ts := range s.UserTypeCollection {
+				switch t := ts.(type) {
+				case *jschema.JSchema:
+					o.keepBytes("text the type "+name+" was created from", "create", t.File.Content().Data())
+				case *regex.RSchema:
+					o.keepBytes("text the regex type "+name+" was created from", "create", t.File.Content().Data())
+				}
+			}
+		}
 	case "script":
 		o.js = jschema.New("root", in.Text)
+		o.keepBytes("text the root schema was created from", "create", o.js.File.Content().Data())
 	case "enum":
 		o.en = enum.New("@e", in.Text)
 	case "regex":
@@ -1711,7 +1724,7 @@ func init() {
 		Run:    c10Run,
 		Replay: c10Replay,
 		Rule: "histories of library calls over several live objects (schema projects = root + types + enum rules, bare roots with late AddRule/AddType scripts, enum rules, regex schemas, JSON documents) under four monitors: " +
-			"(a) every returned value (Example/OpenAPI/Dereference bytes, AST trees, UsedUserTypes and enum Values lists, errors) is kept with a deep snapshot taken at return time and ALL kept values are re-compared after EVERY later operation; " +
+			"(a) every returned value (Example/OpenAPI/Dereference bytes, AST trees, UsedUserTypes and enum Values lists, errors) and the text every schema and type object was created from is kept with a deep snapshot taken at return time and ALL kept values are re-compared after EVERY later operation; " +
 			"(b) every result inside a history is compared with the result of the same call on the same input in a fresh process that does nothing else first (one child process per input; inputs without such a baseline are compared with their first-sight result computed before any history; the counters say how many of each); " +
 			"(c) hook H2 asserts that every loader taken from the pool is in reset state; (d) hook H1 overwrites a buffer with 0xDB when it is put back (3 of 4 histories), a result showing 0xDB 0xDB is a use-after-put. " +
 			"A result that differs from its baseline is triaged before it is reported: if only the heap-address name of an unnamed type (#0x…) differs it is reported under one fixed key; if recomputing the input up to 150 times on fresh objects (and in 2 more fresh processes) gives more than one answer the input is nondeterministic by itself (clause nondeterministic, keyed by what differs, and the input is no longer compared); otherwise clause history-dependent (panic if the history result is a panic the baseline does not have). " +
